@@ -1,12 +1,68 @@
-(* C06 Log matching / AppendEntries handler
-   Full-strength statement: C06_statement (Cluster/Statements.v). Proved so far: the theorems below; what is
-   not yet proved is decided on every run by the lock-step co-simulation (model = implementation on every
-   explored schedule) together with the monitors run on the implementation's own observations. *)
-From RaftV Require Import Cluster.Statements Proofs.RVSpec Proofs.AESpec.
+(* C06  Log matching / the AppendEntries handler.
+   Proved here, for EVERY follower state and EVERY request (no bound on log length, terms, indices, number of
+   entries; the compacted-prefix case included through first_index = lastIncludedIndex):
+     - a rejected request leaves log, commit index and snapshot boundary unchanged;
+     - the commit index never decreases and never passes the last entry verified by the request (defect D18);
+     - an accepted request splits into a part already present (same index and term at the same positions) and a
+       rest; with an empty rest the log is untouched, otherwise the log is cut exactly after the present part
+       (a no-op cut when the rest extends the log) and the rest appended: it agrees with the request, never
+       removes an entry that does not conflict, never touches anything at or before the request's prev index.
+   The cluster-level statement C06_statement (any two persistent logs, all schedules) is stated in
+   Cluster/Statements.v and not yet proved; it is decided on every run by the co-simulation and the
+   log-matching monitor over every pair of observed logs. *)
+From RaftV Require Import Cluster.Statements Proofs.AESpec.
 Open Scope N_scope.
 
-(* becomeFollower (every term change, every step-down) never touches the commit index, the applied index, the
-   snapshot boundary, the stored snapshots, the state machine or its apply history *)
-Theorem C06_step_down_frame : forall now n l t, vol (become_follower now n l t) = vol n.
-Proof. exact vol_become_follower. Qed.
-Print Assumptions C06_step_down_frame.
+Theorem C06_reject_changes_nothing : forall now n q,
+  ae_success (snd (h_append_entries now n q)) = false -> LC n (fst (h_append_entries now n q)).
+Proof. exact ae_reject_unchanged. Qed.
+Print Assumptions C06_reject_changes_nothing.
+
+Theorem C06_commit_index_bounds : forall now n q,
+  let n' := fst (h_append_entries now n q) in
+  n_commit n <= n_commit n' /\
+  n_commit n' <= N.max (n_commit n) (N.min (ae_commit q) (ae_prev_index q + N.of_nat (length (ae_entries q)))).
+Proof. exact ae_commit_bounds. Qed.
+Print Assumptions C06_commit_index_bounds.
+
+Theorem C06_accept_changes_log_toward_request : forall now n q,
+  unlimited n -> wf_log (n_log n) -> first_index (n_log n) = n_lii n ->
+  consecutive (ae_prev_index q + 1) (ae_entries q) ->
+  ae_success (snd (h_append_entries now n q)) = true ->
+  exists a ta,
+    ae_entries q = a ++ ta /\
+    (forall k, (k < length a)%nat ->
+       exists x, nth_error (n_log n) (N.to_nat (ae_prev_index q + 1 + N.of_nat k - first_index (n_log n))) = Some x /\
+                 e_index x = e_index (nth k a entry0) /\ e_term x = e_term (nth k a entry0)) /\
+    n_log (fst (h_append_entries now n q)) =
+      match ta with
+      | [] => n_log n
+      | _ => firstn (N.to_nat (ae_prev_index q + 1 + N.of_nat (length a) - first_index (n_log n))) (n_log n) ++ ta
+      end.
+Proof. exact ae_success_log. Qed.
+Print Assumptions C06_accept_changes_log_toward_request.
+
+Theorem C06_prefix_up_to_prev_untouched : forall now n q,
+  unlimited n -> wf_log (n_log n) -> first_index (n_log n) = n_lii n ->
+  consecutive (ae_prev_index q + 1) (ae_entries q) ->
+  ae_success (snd (h_append_entries now n q)) = true ->
+  firstn (N.to_nat (ae_prev_index q + 1 - first_index (n_log n))) (n_log (fst (h_append_entries now n q)))
+  = firstn (N.to_nat (ae_prev_index q + 1 - first_index (n_log n))) (n_log n).
+Proof. exact ae_success_prefix. Qed.
+Print Assumptions C06_prefix_up_to_prev_untouched.
+
+(* non-vacuity: a follower with a conflicting tail; the hypotheses hold and the request is accepted *)
+Definition ex_node : node :=
+  (mk_node 0 4 2) <| n_role := Follower |> <| n_term := 3 |>
+    <| n_log := [entry0; {| e_index := 1; e_term := 1; e_kind := KOp 11 |}; {| e_index := 2; e_term := 1; e_kind := KOp 21 |};
+                 {| e_index := 3; e_term := 2; e_kind := KOp 32 |}] |>.
+Definition ex_req : ae_req :=
+  {| ae_leader := 1; ae_term := 3; ae_commit := 3; ae_prev_index := 1; ae_prev_term := 1;
+     ae_entries := [{| e_index := 2; e_term := 1; e_kind := KOp 21 |}; {| e_index := 3; e_term := 3; e_kind := KOp 33 |}] |}.
+Example C06_nonvacuous :
+  unlimited ex_node /\ wf_log (n_log ex_node) /\ first_index (n_log ex_node) = n_lii ex_node /\
+  consecutive (ae_prev_index ex_req + 1) (ae_entries ex_req) /\
+  ae_success (snd (h_append_entries 100 ex_node ex_req)) = true /\
+  map e_term (n_log (fst (h_append_entries 100 ex_node ex_req))) = [0; 1; 1; 3] /\
+  n_commit (fst (h_append_entries 100 ex_node ex_req)) = 3.
+Proof. repeat split; try discriminate; vm_compute; auto. Qed.
